@@ -7,6 +7,22 @@ from contracts import k_prec
 
 TARGET_LAYOUTS = [('bare', 'zz'), ('pars', '(zz)'), ('tight', '(zz)'), ('multiline', '(zz\n)')]
 MULTI_CHILDREN = [('CallML', 'f(x,\n  y).z'), ('BinOpML', '(a +\n b)'), ('TupleML', '(a,\n b)'), ('IfExpML', '(a if b\n else c)')]
+COMMENT_CHILDREN = [('BinOpCmtBS', '(a + # c:\\tmp\\\n b)'), ('CompareCmt', '(a < # cmt\n b)'), ('CallCmtBS', 'f(x, # c\\\n y)'),
+                    ('BoolOpCmtBS', '(a and # \\\n b)'), ('IfExpCmtBS', '(a if b # \\\n else c)'),
+                    ('AttrCmtBS', '(a # c \\\n . b)'), ('StrImplicitML', '("a"\n "b")')]
+# put path only (not precedence-table points): async statement heads, and positions that are leftmost inside an
+# f-string replacement field without being FormattedValue.value itself (a child starting with `{` must not abut the `{`)
+EXTRA_SLOTS = [
+    ('AsyncWith.context_expr', 'async with {}: pass', False), ('AsyncWith.context_expr.as', 'async with {} as v: pass', False),
+    ('AsyncWith.context_expr.2', 'async with {}, z: pass', False), ('AsyncFor.iter', 'async for v in {}: pass', False),
+    ('With.context_expr.2', 'with z, {}: pass', False),
+    ('FStr.BinOp.left', "v = f'{{{} + y}}'", False), ('FStr.Attribute.value', "v = f'{{{}.b}}'", False),
+    ('FStr.Compare.left', "v = f'{{{} < y}}'", False), ('FStr.Subscript.value', "v = f'{{{}[0]}}'", False),
+    ('FStr.IfExp.body', "v = f'{{{} if t else z}}'", False), ('FStr.Tuple.elts.0', "v = f'{{{}, z}}'", False),
+    ('FStr.BoolOp.values.0', "v = f'{{{} and z}}'", False), ('FStr.Call.func', "v = f'{{{}(z)}}'", False),
+    ('FStr.deep.left', "v = f'{{{}.a.b + c}}'", False), ('FStr.IfExp.orelse', "v = f'{{a if b else {}}}'", False),
+    ('FStr.spec', "v = f'{{{} + y:>{{w}}}}'", False),
+]
 PAT_MULTI = [('SeqBracketFirst', '[a], [b]'), ('SeqParenFirst', '(a), (b)'), ('OrML', '(a |\n b)')]
 
 
@@ -63,7 +79,7 @@ def main(payload):
         if len(failures) < 40:
             failures.append(dict(key=f'C09.B.{key}', what=what, replayed=True, **kw))
 
-    groups = [(k_prec.SLOTS, k_prec.EXPR_CHILDREN + MULTI_CHILDREN, False),
+    groups = [(k_prec.SLOTS + EXTRA_SLOTS, k_prec.EXPR_CHILDREN + MULTI_CHILDREN + COMMENT_CHILDREN, False),
               (k_prec.TARGET_SLOTS, k_prec.TARGET_CHILDREN, False),
               (k_prec.PATTERN_SLOTS, k_prec.PATTERN_CHILDREN + PAT_MULTI, True)]
     for slots, children, is_pat in groups:
